@@ -133,6 +133,9 @@ from pyvc import tables as _tables, detcheck as _detcheck, hashcheck as _hashche
 from .logger_contracts import LOGGER_C17, LOGGER_SIDECARS
 PLAN["C12"]["extra"] = [_importcheck.check, _importcheck.check_reserve]
 PLAN["C11"]["extra"] = [_importcheck.check_layout_pass]
+PLAN["C11"]["level_text"] = ("SMT-discharged contracts (pyvc/z3, real source re-read on every run) for Parser.check_alignment and validate_msg_def - see the explanation below - plus one contract decided "
+                            "by a syntactic path analysis, not by SMT (by_backend 'dataflow' in the evidence): every normal exit of Parser.add_fields, the field-list-reuse branch included, is preceded "
+                            "by validate_msg_def, so every definition goes through the verified layout pass; it has a replay on the real parser. " + PLAN["C11"]["explanation"])
 PLAN["C12"]["level_text"] = ("Mixed. SMT-discharged contracts (pyvc/z3, real source re-read on every run) for handle_host_id, handle_module_id, validate_msg_id and check_duplicate_name over the five shared "
                             "namespaces: the registries stay injective, acceptance implies no id / name clash anywhere in the import closure, each error is raised only when that clash exists, ranges "
                             "are enforced. Two further contracts are decided by a syntactic dataflow analysis of one function each, not by SMT, and are labelled so in the evidence (by_backend "
